@@ -1,16 +1,21 @@
 import Driver.Proto
 import Driver.SorterCmd
+import Driver.EngineCmd
 /-! `driver`: one request per line on stdin, one answer per line on stdout. -/
 namespace Driver
 
 structure St where
   sorter : SorterSt := {}
+  engine : EngineSt := {}
 
 def step (st : St) (line : String) : St × String :=
   let (cmd, args) := parseLine line
   if cmd.startsWith "sorter." || cmd.startsWith "graph." then
     let (s, out) := sorterHandle st.sorter cmd args
     ({ st with sorter := s }, out)
+  else if cmd.startsWith "engine." then
+    let (s, out) := engineHandle st.engine cmd args
+    ({ st with engine := s }, out)
   else if cmd == "ping" then (st, "pong")
   else (st, "bad-op")
 
